@@ -8,7 +8,7 @@ From RV Require Import Base.
 From RV.Gen Require Import FoldTables.
 From RV.Model Require Import Utf8 CodePointSet Fold IR Optimizer Unfold.
 From RV.Proofs Require Import CpsProofs FoldRefProofs.
-From Coq Require Import ZifyN ZifyBool.
+From Coq Require Import ZifyN ZifyBool Sorted.
 Ltac Zify.zify_post_hook ::= Z.div_mod_to_equations.
 
 Lemma add_one_contains s v x : cps_contains (cps_add_one s v) x = cps_contains s x || (v =? x).
@@ -585,3 +585,68 @@ Theorem unfold_char_spec : forall c a, In a (unfold_char c) <-> fold a = fold c.
 Proof. exact (unfold_with_spec FOLDS folds_sorted folds_nonneg fold_idempotent). Qed.
 Theorem unfold_uppercase_char_spec : forall c a, In a (unfold_uppercase_char c) <-> uppercase a = uppercase c.
 Proof. exact (unfold_with_spec TO_UPPERCASE to_uppercase_sorted upper_nonneg uppercase_idempotent). Qed.
+
+(* ---- the expansion of a code point has between one and four members, for every code point: Parser::char_node and
+   the literal lowering never meet the "exceeded maximum expansion" panic ---- *)
+Lemma insert_sorted_sorted : forall l x lo, (forall y, In y l -> lo <= y) -> lo <= x ->
+  Sorted.StronglySorted N.lt l -> Sorted.StronglySorted N.lt (insert_sorted x l).
+Proof.
+  induction l as [|z t IH]; intros x lo Hlo Hx Hs; cbn [insert_sorted]; [repeat constructor|].
+  inversion Hs as [|? ? Ht Hz]; subst. destruct (N.ltb_spec x z) as [Hlt|Hge].
+  - constructor; [exact Hs|]. constructor; [exact Hlt|]. rewrite Forall_forall in *. intros y Hy. specialize (Hz y Hy). lia.
+  - destruct (N.eqb_spec x z) as [->|Hne]; [exact Hs|]. constructor.
+    + apply (IH x z); [intros y Hy; rewrite Forall_forall in Hz; specialize (Hz y Hy); lia|lia|exact Ht].
+    + rewrite Forall_forall in *. intros y Hy. apply insert_sorted_in' in Hy as [->|Hy]; [lia|apply Hz; exact Hy].
+Qed.
+Lemma sort_dedup_sorted l : Sorted.StronglySorted N.lt (sort_dedup l).
+Proof.
+  unfold sort_dedup. assert (G : forall acc, Sorted.StronglySorted N.lt acc -> Sorted.StronglySorted N.lt (fold_left (fun acc y => insert_sorted y acc) l acc)).
+  { induction l as [|y t IH]; intros acc Ha; [exact Ha|]. cbn [fold_left]. apply IH. apply (insert_sorted_sorted acc y 0); [intros; lia|lia|exact Ha]. }
+  apply G. constructor.
+Qed.
+Lemma sorted_all_equal l c : Sorted.StronglySorted N.lt l -> (forall a, In a l -> a = c) -> (length l <= 1)%nat.
+Proof.
+  intros Hs Ha. destruct l as [|x [|y t]]; cbn [length]; try lia. exfalso.
+  inversion Hs as [|? ? _ Hx]; subst. rewrite Forall_forall in Hx. specialize (Hx y (or_introl eq_refl)).
+  rewrite (Ha x (or_introl eq_refl)), (Ha y (or_intror (or_introl eq_refl))) in Hx. lia.
+Qed.
+
+Section UnfoldLen.
+  Variable T : list (N * N * Z * N).
+  Hypothesis Hsorted : ranges_sorted 0 T = true.
+  Hypothesis Hnonneg : forallb (fun r => (0 <=? Z.of_N (fr_first r) + fr_delta r)%Z) T = true.
+  Hypothesis Hidem : forall c, table_lookup T (table_lookup T c) = table_lookup T c.
+  (* on the code points the table moves and on their images the expansion has at most four members *)
+  Hypothesis Hsup : forallb (fun c => (length (unfold_with T c) <=? 4)%nat)
+                            (moved_points T ++ map (table_lookup T) (moved_points T)) = true.
+  Notation F := (table_lookup T).
+
+  Theorem unfold_with_length c : (1 <= length (unfold_with T c) <= 4)%nat.
+  Proof.
+    assert (Hin : In c (unfold_with T c)) by (apply (unfold_with_spec T Hsorted Hnonneg Hidem); reflexivity).
+    split; [destruct (unfold_with T c); [contradiction|cbn [length]; lia]|].
+    destruct (in_dec N.eq_dec c (moved_points T ++ map F (moved_points T))) as [Hs|Hns].
+    - rewrite forallb_forall in Hsup. specialize (Hsup c Hs). apply Nat.leb_le in Hsup. exact Hsup.
+    - (* neither moved nor an image: the class is {c} *)
+      assert (Hall : forall a, In a (unfold_with T c) -> a = c).
+      { intros a Ha. apply (unfold_with_spec T Hsorted Hnonneg Hidem) in Ha.
+        assert (Hc : F c = c).
+        { destruct (N.eq_dec (F c) c) as [E|Hm]; [exact E|]. exfalso. apply Hns. apply in_or_app. left. apply moved_in_points; assumption. }
+        rewrite Hc in Ha. destruct (N.eq_dec (F a) a) as [E|Hm]; [congruence|].
+        exfalso. apply Hns. apply in_or_app. right. apply in_map_iff. exists a. split; [exact Ha|apply moved_in_points; assumption]. }
+      assert (Hs : Sorted.StronglySorted N.lt (unfold_with T c)) by (unfold unfold_with; apply sort_dedup_sorted).
+      pose proof (sorted_all_equal _ c Hs Hall). lia.
+  Qed.
+End UnfoldLen.
+
+Lemma folds_expansion_small : forallb (fun c => (length (unfold_char c) <=? 4)%nat) (moved_points FOLDS ++ map fold (moved_points FOLDS)) = true.
+Proof. vm_compute. reflexivity. Qed.
+Lemma upper_expansion_small : forallb (fun c => (length (unfold_uppercase_char c) <=? 4)%nat) (moved_points TO_UPPERCASE ++ map uppercase (moved_points TO_UPPERCASE)) = true.
+Proof. vm_compute. reflexivity. Qed.
+
+Theorem expand_code_point_length : forall c icase unicode, (1 <= length (expand_code_point c icase unicode) <= 4)%nat.
+Proof.
+  intros c icase unicode. unfold expand_code_point. destruct icase; cbn [negb]; [|cbn [length]; lia]. destruct unicode.
+  - exact (unfold_with_length FOLDS folds_sorted folds_nonneg fold_idempotent folds_expansion_small c).
+  - exact (unfold_with_length TO_UPPERCASE to_uppercase_sorted upper_nonneg uppercase_idempotent upper_expansion_small c).
+Qed.
